@@ -62,9 +62,9 @@ pub struct Ctx {
 pub const VARIANTS: [(&str, &str, &[&str], &str); 5] = [
     (
         "dbg",
-        "/verif/.target/dbg/nexrad-mc",
+        "/verif/.target/v-dbg/dbg/nexrad-mc",
         &["C01", "C02", "C03", "C04", "C05", "C06", "C07", "C08", "C09", "C10", "C11", "C12", "C13", "C14", "C15", "C16", "C17", "C18", "C19"],
-        "all features, debug-assertions on (cfg(debug_assertions) code and debug_assert! are live)",
+        "all features, debug-assertions on (cfg(debug_assertions) code and debug_assert! are live), compiled with -C target-cpu=x86-64-v3 where the machine has fma + avx2 (cfg(target_feature = ..) code is live)",
     ),
     (
         "bare",
